@@ -30,12 +30,13 @@ def cases(tier, rng):
             for st in styles(WE):
                 x, y = POS[k % 4]
                 k += 1
-                if quick and (k % 2):
-                    yield J('ell_styled', x, y, w, h, *st)
-                else:
-                    yield J('rect_styled', x, y, w, h, *st)
-                if not quick:
-                    yield J('ell_styled' if (k % 2) == 0 else 'rect_styled', x, y, w, h, *st)
+                # both shapes get every style (all widths x alignments x colour combinations) on every cell
+                yield J('ell_styled', x, y, w, h, *st)
+                yield J('rect_styled', x, y, w, h, *st)
+    # the saturating operations on the stroke-width path, at the u32 / i32 edges
+    for w in [0, 1, 2, 3, 4, 5, 2 ** 31 - 2, 2 ** 31 - 1, 2 ** 31, 2 ** 31 + 1, 2 ** 32 - 3, 2 ** 32 - 2, 2 ** 32 - 1, 2 ** 30, 65535, 65536]:
+        for al in range(3):
+            yield J('style_split', w, al)
     n = 600 if quick else 8000
     for _ in range(n):
         x, y = coord(rng), coord(rng)
@@ -66,10 +67,8 @@ def search(tier, rng):
         for h in range(0, E + 1):
             for st in styles(WE):
                 k += 1
-                if not quick or k % 2:
-                    yield J('p_ell_c06', 4, -6, w, h, *st)
-                if not quick or not k % 2:
-                    yield J('p_rect_c06', 4, -6, w, h, *st)
+                yield J('p_ell_c06', 4, -6, w, h, *st)
+                yield J('p_rect_c06', 4, -6, w, h, *st)
     n = 500 if quick else 8000
     for _ in range(n):
         x, y = coord(rng), coord(rng)
@@ -88,15 +87,22 @@ def trivial(line, res):
 RULE = ('Rectangle/Circle/Ellipse: correspondence of styled draw() (pixel map on a native and on a draw_iter-only recording target), '
         'pixels() (item list), fill_area(), stroke_area() and the styled bounding box between the extracted model and the code for ALL '
         'diameters 0..D resp. axis/side pairs 0..E x ALL stroke widths 0..W (wider than the shape included) x 3 alignments x '
-        '{both, stroke only, fill only, none} (D,W = 9,6 quick / 16,10 thorough; E,W = 6,4 / 10,7), plus random larger and thin shapes, '
+        '{both, stroke only, fill only, none} (D,W = 9,6 quick / 16,10 thorough; E,W = 6,4 / 10,7; every style goes to BOTH ellipse and rectangle), '
+        'style_split: stroke_area()/fill_area()/styled box of fixed shapes for widths 0..5, 65535/6, 2^30, 2^31-2..2^31+1, 2^32-3..2^32-1 x 3 alignments '
+        '(saturating_add(1), saturating_as, saturating_add/sub(2*offset)), plus random larger and thin shapes, '
         'wide strokes and shapes partly outside the target. search: the C06 predicate itself on the code - the pixel maps of draw() '
         '(both targets) and pixels() equal "fill colour on fill_area().contains, stroke colour on stroke_area().contains minus fill area if '
         'width > 0", pixels() yields no point twice, the areas equal the documented grow/shrink rule recomputed independently, an inside '
         'stroke stays inside and an outside stroke stays outside. non-trivial = something is painted.')
 EXHAUSTIVE = {'quick': False, 'thorough': False}
 ASSUMPTIONS = ['coordinates, extents and stroke width within 2^27 (no saturating operation of the model is reached, also not in the '
-               'stroke area); squared distances and products are unbounded integers in the model (see C05 / C08 for the machine ranges)',
-               'solid stroke style (the wording of C06); the dotted rectangle border of rectangle/styled.rs is not modelled']
+               'stroke area); the saturating branch of the width split itself is covered for every u32 width by C06_stroke_split_saturating and '
+               'tied by the style_split cases at the u32 / i32 edges',
+               'squared distances and products are unbounded integers in the model; they equal the machine arithmetic of the code when the STROKE '
+               'area is in the range of C05: diameter + 2*width <= 2^15 (circle), (w + 2*width)*(h + 2*width) <= 2^31 (ellipse) - theorems '
+               'C06_circle_areas_in_machine_range / C06_ellipse_areas_in_machine_range; beyond it the code overflows (C08 is about that)',
+               'solid stroke style (the wording of C06); the dotted rectangle border of rectangle/styled.rs is not modelled; circle/ellipse '
+               'theorems hold for both stroke kinds but only Solid is run against the code']
 TRUSTED = ['modelled, not verified: a draw() is represented by the list of fill_solid calls it issues and a correct target paints '
            'exactly the rectangle of each call (C01(a)/C03 are about targets); `as u32`/`as i32` casts of in-range values; '
            'Option<Range>::unwrap_or_else in StyledScanline::new']
